@@ -207,7 +207,8 @@ def scenario_sequential(size, smin, njobs):
 
 
 def scenario_base_exception_job():
-    """listed known finding: a job ending with a BaseException that is not an Exception kills its worker without notify_done"""
+    """a job ending with a BaseException that is not an Exception (sys.exit() in a remote method) kills its worker thread: the pool must not
+    keep counting the dead worker as busy (fixed defect - see known_findings.json)"""
     config.THREADPOOL_SIZE, config.THREADPOOL_SIZE_MIN = 1, 1
     pool = T.Pool()
     hook = threading.excepthook
@@ -248,7 +249,8 @@ def main(mode):
                 break
         runs += 1
         if scenario_base_exception_job():
-            known.append("C18-job-ending-with-baseexception")
+            fail = fail or {"scenario": "job ending with SystemExit", "size": 1, "min": 1,
+                            "violated": "the dead worker is still counted as busy: the slot is lost and the next connection is refused although no worker is running"}
     finally:
         threading.settrace(None)
         config.THREADPOOL_SIZE, config.THREADPOOL_SIZE_MIN = saved
